@@ -189,6 +189,19 @@ theorem C06_reserialize (v : V) (h : WF v = true) :
     json (toSig (fromSig false (json (toSig v)))) = json (toSig v) := by
   rw [rt v h]; exact reserNorm v
 
+/-- **every connector survives**: a `Q` joined with any non-default connector (OR, XOR, whatever a
+later Django adds) reads back with that connector and that negation -/
+theorem C06_q_connector_kept (c : String) (neg : Bool) (ch : VL) (h : WFL ch = true) :
+    fromSig false (json (toSig (.q (some c) neg ch))) = .q (some c) neg (mapTup (normL ch)) := by
+  rw [C06_roundtrip _ (by simpa [WF] using h)]
+  simp [norm]
+
+/-- what the source writes for a Q object: `_connector` whenever it is not the default, whatever
+it is (read by the translator on every run; `qKwargs` is the model of these two tests) -/
+theorem C06_source_q_kwargs : DEvo.Generated.qSigKwargs =
+    ["q.connector != q.default: kwargs['_connector'] = q.connector", "q.negated: kwargs['_negated'] = True"] := by
+  decide
+
 /-! ## findings -/
 
 def qA1 : V := .q none false (.cons (.tuple (.cons (.str "a") (.cons (.int 1) .nil))) .nil)
